@@ -285,6 +285,10 @@ def foreign_family(n0=4):
         "filters_count_change": dict(base, n=n0 + 4, filters=[("truncate_count", (n0,), {})]),
         "seq_len_max": dict(base, seq_len_max=256),
     }
+    if n0 >= 100:
+        # the same filter names with other arguments; both leave >= 100 mazes, so both files are written in the minimal format
+        V["filter_args_a"] = dict(base, n=150, filters=[("path_length", (2,), {})])
+        V["filter_args_b"] = dict(base, n=150, filters=[("path_length", (3,), {})])
     return V
 
 
@@ -550,7 +554,7 @@ def run(ctx):
     c = ctx.res.counters
     ctx.coverage.update(configs=[s["label"] for s in specs], recorded={k: dict(size=len(v[1]), write_ops=len(v[0])) for k, v in ctx_rec.items()},
                         images_by_family={k[7:]: v for k, v in c.items() if k.startswith("images_")},
-                        foreign_pairs=2 * len(foreign_family()) * (len(foreign_family()) - 1), foreign_families=["n0=4 (full format files)", "n0=100 (minimal format files)"],
+                        foreign_pairs=sum(len(foreign_family(k)) * (len(foreign_family(k)) - 1) for k in (4, 100)), foreign_families=["n0=4 (full format files)", "n0=100 (minimal format files)"],
                         history_layer=dict(states=c.get("hist_states", 0), transitions=c.get("hist_transitions", 0), max_depth=c.get("hist_max_depth", 0),
                                            requests_judged_events=[list(e) for e in hist_events()],
                                            mismatch_raised=c.get("hist_mismatch_raised", 0)),
